@@ -48,9 +48,31 @@ class Sess(Family):
                 st.avf = nums[0] & st.vf
         return [VN(maxq), VL([VN(feat), VN(pfeat)]), VL(steps)]
 
+    def one_focused(self, rng):
+        """a fully negotiated session, then operations whose messages are as large as the protocol allows (the 4096-byte
+        limit covers the payload after the 12-byte header, and is reached by configuration accesses only)"""
+        maxq = 4
+        feat, pfeat = W.VF_PROTOCOL_FEATURES | 3, W.PF_ALL
+        steps = []
+        if rng.chance(1, 2):
+            steps.append(sstep("set_hdr_flags", [8]))
+        steps += [sstep("get_features"), sstep("set_features", [feat], outcome=0), sstep("get_protocol_features"),
+                  sstep("set_protocol_features", [W.PF_ALL], outcome=0)]
+        for _ in range(1 + rng.below(3)):
+            n = rng.choice([1, 8, 256, 4071, 4072, 4073, 4080, 4083, 4084])
+            off = rng.choice([0, 0, 0x1000 - n]) if n <= 0x1000 else 0
+            data = bytes((7 * i + n) % 256 for i in range(n))
+            if rng.chance(1, 2):
+                steps.append(sstep("set_config", [off, rng.choice([0, 1, 2, 3])], data, outcome=0))
+            else:
+                steps.append(sstep("get_config", [off, n, rng.choice([0, 1, 2, 3])], data, outcome=0))
+            if rng.chance(1, 2):
+                steps.append(sstep("get_queue_num", outcome=0))
+        return [VN(maxq), VL([VN(feat), VN(pfeat)]), VL(steps)]
+
     def generate(self, rng, tier):
         n = 700 if tier == "quick" else 6000
-        return [(self.one(rng), "session") for _ in range(n)]
+        return [(self.one(rng), "session") for _ in range(n)] + [(self.one_focused(rng), "large-messages") for _ in range(n // 7)]
 
     def nontrivial(self, args, obs):
         return '(VL [(VL [(VS "' in obs and "(VL [(VS \"set_" in obs or "get_" in obs
